@@ -390,6 +390,121 @@ def parsed_sections(ctx: Ctx) -> None:
                     return
 
 
+def strict_overrides(ctx: Ctx, tables: dict) -> None:
+    """`strict` plus the explicit opposite of one strict flag, for every flag of the regenerated strict list ×
+    every source (mypy.ini, setup.cfg, pyproject.toml — both key orders and both key spellings —, the command
+    line in both orders, and the two mixed forms).  (i) correspondence: the values of all strict options vs
+    the model's `globalOptionsStrict` (driver `P`); (ii) oracle: the documented rule "individual flags
+    override strict" — the explicit key wins inside one source in either order, the command line wins over
+    the config file — and the sources agree on the whole snapshot."""
+    from harness.c17.resolution import run_driver_sharded
+    w = Work(ctx, "strict")
+    dests = [d for d, _ in tables["strict"]]
+    ft = flag_table(tables)
+    jobs = []          # (dest, b, label, cli, cfg_name, cfg_text, model_ini, model_cli, expected value of dest)
+    for d, b in tables["strict"]:
+        opp = next((f for f in ft if f["bool"] and not f["special"] and f["dest"] == d and f["const"] == (not b) and f["long"]), None)
+        if opp is None:
+            ctx.dist("strict_override", "excluded: no opposite command-line flag")
+            continue
+        oflag = opp["long"][0]
+        okey = oflag[2:].replace("-", "_")
+        spell = [(d, str(not b))] + ([(okey, "True")] if okey != d else [])
+        for key, val in spell:
+            tval = (val == "True")
+            for order in (0, 1):
+                pairs = [("strict", "True"), (key, val)][:: (1 if order == 0 else -1)]
+                mi = ",".join(f"{k}={v}" for k, v in pairs)
+                for cfg in ("mypy.ini", "setup.cfg"):
+                    jobs.append((d, b, f"{cfg} {'strict first' if order == 0 else 'strict last'} {key}", [], cfg, ini_text(pairs), mi, "", not b))
+                tp = [("strict", True), (key, tval)][:: (1 if order == 0 else -1)]
+                jobs.append((d, b, f"pyproject.toml {'strict first' if order == 0 else 'strict last'} {key}", [], "pyproject.toml", toml_text(tp), mi, "", not b))
+            # mixed: explicit key in the config file, --strict on the command line → the command line wins
+            jobs.append((d, b, f"config {key} + --strict", ["--strict"], "mypy.ini", ini_text([(key, val)]), f"{key}={val}", "--strict", b))
+        jobs.append((d, b, "cli strict first", ["--strict", oflag], None, "", "", f"--strict {oflag}", not b))
+        jobs.append((d, b, "cli strict last", [oflag, "--strict"], None, "", "", f"{oflag} --strict", not b))
+        jobs.append((d, b, "config strict + cli flag", [oflag], "mypy.ini", ini_text([("strict", "True")]), "strict=True", oflag, not b))
+    lines = [f"P {j[6]}|{j[7]}|{','.join(dests)}|x" for j in jobs]
+    model = run_driver_sharded(ctx, lines)
+    ref: dict = {}
+    for (d, b, label, cli, cfg, text, _mi, _mc, want), mo in zip(jobs, model):
+        o, err = w.options(cli, cfg, text)
+        ctx.case(("STRICT-OVR", d, label))
+        ctx.dist("strict_override", label.split(" ")[0] + (" mixed" if "+" in label else ""))
+        ctx.count("traces_validated_against_impl")
+        if o is None or err:
+            report(ctx, {"class": "strict-override", "option": d, "source": label.split(" ")[0]},
+                   f"strict plus explicit {d}: {label} is rejected: {err[:200]}",
+                   {"kind": "strict-override", "cli": cli, "config_name": cfg, "config_text": text, "option": d, "documented": want})
+            continue
+        real = " ".join(f"{k}={show_val(getattr(o, k))}" for k in dests)
+        got = getattr(o, d)
+        if got != want:
+            report(ctx, {"class": "strict-override", "option": d, "source": label.split(" ")[0]},
+                   f"strict plus the explicit setting {d} = {not b} ({label}): {d} is {got}; individual settings override strict"
+                   + (", the command line overrides the config file" if "+ --strict" in label else ""),
+                   {"kind": "strict-override", "cli": cli, "config_name": cfg, "config_text": text, "option": d, "documented": want})
+        elif real != mo.split(" dis=")[0]:
+            ctx.count("disagreements_checked")
+            ctx.violation(f"strict correspondence broken ({label}, {d}): code [{real}] model [{mo}]",
+                          {"broken": "correspondence Driver/C17 `P` (globalOptionsStrict) vs process_options", "kind": "strict-override",
+                           "cli": cli, "config_name": cfg, "config_text": text, "option": d, "documented": want}, found_input=False)
+            return
+        if "+ --strict" not in label:
+            # all pure and "config strict + cli flag" forms describe the same settings: same snapshot
+            sn = snap(o)
+            r0 = ref.setdefault(d, (label, sn))
+            dd = diff_snap(r0[1], sn)
+            if dd:
+                report(ctx, {"class": "strict-override", "option": d, "source": label.split(" ")[0]},
+                       f"strict plus explicit {d} = {not b}: {label} and {r0[0]} give different options: {dict(list(dd.items())[:4])}",
+                       {"kind": "strict-override", "cli": cli, "config_name": cfg, "config_text": text, "option": d, "documented": want})
+
+
+def strict_diagnostics(ctx: Ctx, tables: dict) -> None:
+    """The same on diagnostics of the witness package: `--strict --<opposite>` vs `strict = True` + the explicit
+    key (both orders) in mypy.ini and pyproject.toml."""
+    ft = flag_table(tables)
+    cand = []
+    for d, b in tables["strict"]:
+        opp = next((f for f in ft if f["bool"] and not f["special"] and f["dest"] == d and f["const"] == (not b) and f["long"]), None)
+        if opp is not None and d not in ("warn_unused_configs",):
+            cand.append((d, b, opp["long"][0]))
+    must = [c for c in cand if c[0] == "disallow_untyped_defs"]
+    rest = [c for c in cand if c[0] != "disallow_untyped_defs"]
+    pick = must + (ctx.rng.sample(rest, min(2, len(rest))) if ctx.quick() else rest)
+
+    def one(job):
+        n, (d, b, oflag) = job
+        wd = os.path.join(ctx.tmp, f"sd{n}")
+        os.makedirs(wd, exist_ok=True)
+        write_witness(wd)
+        res = {"cli": run_mypy(wd, ["--config-file=", "--strict", oflag], ".c0")}
+        for name, cfg, text in (("mypy.ini strict first", "mypy.ini", ini_text([("strict", "True"), (d, str(not b))])),
+                                ("mypy.ini strict last", "mypy.ini", ini_text([(d, str(not b)), ("strict", "True")])),
+                                ("pyproject.toml strict first", "pyproject.toml", toml_text([("strict", True), (d, not b)]))):
+            with open(os.path.join(wd, cfg), "w") as fh:
+                fh.write(text)
+            res[name] = (run_mypy(wd, [], ".c0"), cfg, text)      # same options → same cache
+            os.remove(os.path.join(wd, cfg))
+        return d, b, oflag, res
+
+    with ThreadPoolExecutor(max_workers=6) as exr:
+        outs = list(exr.map(one, enumerate(pick)))
+    for d, b, oflag, res in outs:
+        for name, v in res.items():
+            if name == "cli":
+                continue
+            out, cfg, text = v
+            ctx.case(("STRICT-DIAG", d, name))
+            ctx.dist("strict_diagnostics", name)
+            if out != res["cli"]:
+                report(ctx, {"class": "strict-override", "option": d, "source": cfg, "level": "diagnostics"},
+                       f"--strict {oflag} and `strict = True` + `{d} = {not b}` ({name}) give different diagnostics",
+                       {"kind": "strict-diagnostics", "cli": ["--strict", oflag], "config_name": cfg, "config_text": text,
+                        "cli_output": res["cli"][-1200:], "config_output": out[-1200:]})
+
+
 SEC_KEYS = ["disallow_untyped_defs", "warn_return_any", "ignore_errors", "check_untyped_defs"]
 
 
